@@ -1,17 +1,4 @@
-// ======================================================================================
-// fragment indextype.rs - file prelude + the repository's `IndexType` trait under contract
-// (src/graph_impl/mod.rs).  The crate marks the trait `unsafe` because implementors "must
-// faithfully preserve and convert index values"; the contract below is that sentence.
-// ======================================================================================
-#![allow(unused_imports, unused_variables, unused_mut, dead_code, unused_unsafe, unused_parens, unused_braces, non_snake_case, unused_assignments)]
-use vstd::prelude::*;
-use vstd::std_specs::cmp::*;
-use core::cmp::Ordering;
-use core::hash::Hash;
-use core::fmt;
-verus! {
-global size_of usize == 8;
-
+// fragment indextype.rs - the repository's `IndexType` trait under contract (src/graph_impl/mod.rs)
 //@ item src/graph_impl/mod.rs | - | trait IndexType
 pub unsafe trait IndexType: Copy + Default + Hash + Ord + fmt::Debug + 'static {
     /*+*/
